@@ -76,7 +76,7 @@ def plan(tier, seed):
     jobs = []
     for cfg in AM_CONFIGS:
         jobs.append(("amap", cfg, AM_DEPTH[cfg] + (0 if tier == "quick" else 1), 400000 if cfg[3] >= 16 else 50000))
-    hist = [((2, (2, 2)), 3), ((3, (2, 2)), 2), ((2, (3, 2)), 2)] if tier == "quick" else [((2, (2, 2)), 4), ((3, (2, 2)), 3), ((2, (3, 2)), 3), ((3, (2, 2, 2)), 2)]
+    hist = [((2, (2, 2)), 3), ((3, (2, 2)), 2), ((2, (3, 2)), 2)] if tier == "quick" else [((2, (2, 2)), 4), ((3, (2, 2)), 3), ((2, (3, 2)), 3), ((3, (2, 2, 2)), 3), ((4, (2, 2)), 2), ((2, (2, 2, 2)), 3)]
     for (P, A), d in hist:
         inst = kasm.Instance(P, A, 0, seed)
         n_opt = 2 * (P * len(A) + 2 * (2 if len(A) == 2 else 3)) + 1
